@@ -298,7 +298,7 @@ fn patterns(ctx: &Ctx, e: En, t: Table, kind: RKind, rep: &mut Report) {
                 check_read(&c, rep);
                 let fclass = if *f == 0 { 0 } else if *f < w { 1 } else if *f == w { 2 } else { 3 };
                 rep.case(&(t, e, idx, kind, fclass, cont));
-                if idx % 997 == 0 && si == 0 {
+                if idx % 997 == 313 && si == 0 {
                     rep.sample(|| c.to_kv());
                 }
             }
